@@ -96,6 +96,9 @@ def pm2_gen(rnd, target, mtf_directed=False, prefill=False):
     return cmds
 
 
+FORCE_NC = None        # directed cases: declare exactly this many code-table entries whenever the used codes allow it
+
+
 def _pm2_code_tree(bw, rnd, used, feat):
     if len(used) == 1:
         bw.put(used[0] + 1, 5)
@@ -113,8 +116,11 @@ def _pm2_code_tree(bw, rnd, used, feat):
     if rnd.random() < 0.3:
         # the 5-bit count goes up to 31: entries 29 and 30 have no meaning as commands, but declared *unused* (length 0) they are
         # simply a longer spelling of the same code
-        nc = rnd.randrange(nc, 32) if rnd.random() < 0.5 else rnd.choice([29, 30, 31])
+        nc = rnd.choice([rnd.randrange(nc, 32), rnd.randrange(nc, 32), rnd.choice([29, 30, 31])] + [v for v in (9, 10, 11) if v >= nc])
         feat.add('code-count-%s' % ('30-31' if nc >= 30 else 'upto29'))
+    if FORCE_NC is not None and FORCE_NC >= max(used) + 1:
+        nc = FORCE_NC
+        feat.add('code-count-forced-%d' % nc)
     minl = rnd.randrange(1, mn + 1)
     lb = (max(L) - minl + 1).bit_length()
     if rnd.random() < 0.3:
